@@ -1,3 +1,5 @@
+//go:build kvh_all || kvh_c03
+
 package all
 
 import _ "kvh/engines/c03"
